@@ -278,16 +278,27 @@ def ensure_model(group=None):
     return True, ""
 
 
-def extraction_directives():
-    """every Extract Constant / Extract Inductive in force (library files + ours)"""
+def extraction_directives(groups=(None,)):
+    """every Extract Constant / Extract Inductive in force for the given extraction groups (library files + our Extract files)"""
     out = []
-    files = ["/usr/lib/ocaml/coq/plugins/extraction/ExtrOcamlBasic.v", "/usr/lib/ocaml/coq/theories/extraction/ExtrOcamlBasic.v",
-             os.path.join(COQ, "extract", "Extract.v")]
+    libdir = "/usr/lib/ocaml/coq/theories/extraction"
+    files = []
+    for g in groups:
+        ex = os.path.join(COQ, "extract", "Extract%s.v" % ("_" + g if g else ""))
+        if not os.path.exists(ex): continue
+        src = strip_comments(open(ex).read())
+        for lib_ in re.findall(r"\b(ExtrO[cC]aml\w*)\b", src):
+            f = os.path.join(libdir, lib_ + ".v")
+            if os.path.exists(f) and f not in files: files.append(f)
+        files.append(ex)
     for f in files:
-        if os.path.exists(f):
-            for line in open(f):
-                if re.match(r"\s*Extract (Constant|Inductive|Inlined Constant)", line):
-                    out.append(os.path.basename(f) + ": " + line.strip())
+        n = 0
+        for line in open(f):
+            if re.match(r"\s*Extract (Constant|Inductive|Inlined Constant)", line):
+                n += 1
+                if n <= 40: out.append(os.path.basename(f) + ": " + " ".join(line.split())[:160])
+        if n > 40: out.append("%s: ... %d further directives of the same library file" % (os.path.basename(f), n - 40))
+        if n == 0: out.append(os.path.basename(f) + ": no Extract directive of its own")
     return out
 
 
@@ -495,6 +506,8 @@ class Check:
         return not self.proof["problems"]
 
     def step_model(self, group=None):
+        self.groups = getattr(self, "groups", [])
+        if group not in self.groups: self.groups.append(group)
         ok, log = ensure_model(group)
         if not ok:
             self.violation("model does not build: " + log[-300:], {"theorem_or_correspondence": "extraction/ocaml build", "log": log, "kind": "model-build"}, found_input=False)
@@ -515,7 +528,7 @@ class Check:
             "Coq 8.16.1 kernel incl. vm_compute (no native_compute); coqchk -o re-check in the thorough tier where registered",
             "axioms reported by Print Assumptions for this property's theorems: " + (", ".join(pr["axioms_used"]) if pr["axioms_used"] else "none (closed under the global context)"),
             "hand-written Gallina model of the anchored C++ (modelled, not verified): tie = differential correspondence run by this check against the harness compiled from /repo's working tree",
-            "extraction: Require Extraction + ExtrOcamlBasic only; directives in force: " + "; ".join(extraction_directives()),
+            "extraction (groups %s): Require Extraction + the listed library files only; directives in force: " % ",".join(str(g or "base") for g in getattr(self, "groups", [None])) + "; ".join(extraction_directives(getattr(self, "groups", [None]) or [None])),
             "OCaml 4.13.1 compiler, ocaml/driver.ml (parsing/printing), tools/*.py (generators, canonicalisation, diff), g++ 12 / libstdc++ / Boost",
         ] + list(trusted_extra or [])
         cov = {
